@@ -270,6 +270,106 @@ func altWrite(c *fw.Ctx, ext string, sub *astisub.Subtitles, ref []byte) string 
 	return ""
 }
 
+// cliIO decides in which formats a CLI case reads and writes: SubRip both ways most of the time, otherwise WebVTT
+// (plain, or an HLS segment with an X-TIMESTAMP-MAP header), SSA/ASS or TTML, the extensions in any letter case.
+// The unit (ns) of the output format is what cue times are expected truncated to.
+type cliFormat struct {
+	ext  string
+	unit int64
+	doc  func(cs []tcue) string
+}
+
+var cliFormats = []cliFormat{
+	{"srt", 1e6, simpleSRT},
+	{"vtt", 1e6, func(cs []tcue) string { return simpleVTT(cs, "") }},
+	{"vtt", 1e6, func(cs []tcue) string { return simpleVTT(cs, "X-TIMESTAMP-MAP=LOCAL:00:00:00.000,MPEGTS:900000\n") }},
+	{"vtt", 1e6, func(cs []tcue) string { return simpleVTT(cs, "X-TIMESTAMP-MAP=MPEGTS:183003,LOCAL:00:00:02.000\n") }},
+	{"ass", 1e7, func(cs []tcue) string { return simpleSSA(cs, true) }},
+	{"ssa", 1e7, func(cs []tcue) string { return simpleSSA(cs, false) }},
+	{"ttml", 1e6, simpleTTML},
+}
+
+func simpleVTT(cs []tcue, header string) string {
+	var b strings.Builder
+	b.WriteString("WEBVTT\n" + header + "\n")
+	for k, c := range cs {
+		fmt.Fprintf(&b, "%d\n%s --> %s\n%s\n\n", k+1, strings.Replace(srtTime(c.S), ",", ".", 1), strings.Replace(srtTime(c.E), ",", ".", 1), c.T)
+	}
+	return b.String()
+}
+
+func simpleSSA(cs []tcue, plus bool) string { return simpleSSAFont(cs, plus, "Arial") }
+
+// simpleSSAFont: the one style of the script, Default, uses the given font
+func simpleSSAFont(cs []tcue, plus bool, font string) string {
+	var b strings.Builder
+	if plus {
+		b.WriteString("[Script Info]\nScriptType: v4.00+\n\n[V4+ Styles]\nFormat: Name, Fontname, Fontsize\nStyle: Default," + font + ",20\n\n[Events]\nFormat: Layer, Start, End, Style, Name, MarginL, MarginR, MarginV, Effect, Text\n")
+	} else {
+		b.WriteString("[Script Info]\nScriptType: v4.00\n\n[V4 Styles]\nFormat: Name, Fontname, Fontsize\nStyle: Default," + font + ",20\n\n[Events]\nFormat: Marked, Start, End, Style, Name, MarginL, MarginR, MarginV, Effect, Text\n")
+	}
+	for _, c := range cs {
+		t := func(ns int64) string { cs := ns / 1e7; return fmt.Sprintf("%d:%02d:%02d.%02d", cs/360000, cs/6000%60, cs/100%60, cs%100) }
+		first := "0"
+		if !plus {
+			first = "Marked=0"
+		}
+		fmt.Fprintf(&b, "Dialogue: %s,%s,%s,Default,,0,0,0,,%s\n", first, t(c.S), t(c.E), c.T)
+	}
+	return b.String()
+}
+
+func simpleTTML(cs []tcue) string {
+	var b strings.Builder
+	b.WriteString(`<?xml version="1.0" encoding="UTF-8"?><tt xmlns="http://www.w3.org/ns/ttml"><body><div>`)
+	for _, c := range cs {
+		fmt.Fprintf(&b, `<p begin="%s" end="%s">%s</p>`, strings.Replace(srtTime(c.S), ",", ".", 1), strings.Replace(srtTime(c.E), ",", ".", 1), c.T)
+	}
+	b.WriteString("</div></body></tt>\n")
+	return b.String()
+}
+
+// cliPickIO draws the input and output formats of a CLI case (SubRip both ways half of the time) and the letter case
+// of the extensions; unit is the resolution of the output format
+func cliPickIO(r *fw.Rand) (in, out cliFormat, inExt, outExt string, unit int64) {
+	in, out = cliFormats[0], cliFormats[0]
+	if r.Bool() {
+		in = fw.Pick(r, cliFormats)
+	}
+	if r.Bool() {
+		out = fw.Pick(r, cliFormats)
+	}
+	mix := func(e string) string {
+		b := []byte(e)
+		for i := range b {
+			if r.P(1, 3) {
+				b[i] -= 32
+			}
+		}
+		return string(b)
+	}
+	return in, out, mix(in.ext), mix(out.ext), out.unit
+}
+
+// cliFiles rounds the cues to what the input format can hold, writes the input document and chooses the output path
+// (fresh, over a longer earlier file, or the input itself); it returns both paths, the resolution to expect in the
+// output and a description of the formats
+func cliFiles(c *fw.Ctx, r *fw.Rand, cs []tcue) (in, out string, unit int64, desc string) {
+	fi, fo, ei, eo, unit := cliPickIO(r)
+	for i := range cs {
+		cs[i].S, cs[i].E = cs[i].S/fi.unit*fi.unit, cs[i].E/fi.unit*fi.unit
+	}
+	in = filepath.Join(c.TmpDir(), "in."+ei)
+	out = filepath.Join(c.TmpDir(), "out."+eo)
+	os.WriteFile(in, []byte(fi.doc(cs)), 0o644)
+	out = outPath(r, in, out)
+	if out == in {
+		unit, eo = fi.unit, ei // converted in place: the file keeps its format
+	}
+	_ = fo
+	return in, out, unit, fmt.Sprintf("%s -> %s", ei, eo)
+}
+
 // outPath prepares the place a CLI or Write case writes to: a fresh path, a path that already holds a much longer
 // file (which has to be replaced as a whole, not overwritten in part), or - when the caller allows it - the input
 // path itself (converting a file in place)
